@@ -42,7 +42,9 @@ def make_item(seed, k, variant=None):
     spec = universe.make_spec(rng, kind=kind, minmax="max")
     # a third of the pairs run both directions on ONE instance (max f, then min -f): equivalent for a library whose
     # runs do not depend on instance history, and reaches direction state cached on the instance
-    return {"k": k, "opt": opt, "cfg": cfg, "spec": spec, "reuse": rng.random() < 0.34}
+    # some max tasks get their direction assigned after construction as the plain string "max" (pydantic does not validate
+    # assignment); on the current tree such a task behaves exactly like the enum-valued one
+    return {"k": k, "opt": opt, "cfg": cfg, "spec": spec, "reuse": rng.random() < 0.34, "raw_max": rng.random() < 0.15}
 
 
 def fitness_readers(case):
@@ -88,7 +90,10 @@ def work(item, opts):
         rid = f"c12-{os.getpid()}-{item['k']}-{c['spec']['minmax']}"
         tasks.register_run(rid, c["spec"])
         try:
-            res.append(optimize_plain(opt, tasks.build_task(c["spec"], rid), mode="serial"))
+            t_ = tasks.build_task(c["spec"], rid)
+            if item.get("raw_max") and c["spec"]["minmax"] == "max":
+                t_.minmax = "max"
+            res.append(optimize_plain(opt, t_, mode="serial"))
         finally:
             tasks.unregister_run(rid)
     if order[0] is case_min:
